@@ -33,6 +33,9 @@ func (m *Mutex) TryLock() bool {
 }
 
 func (m *Mutex) Unlock() {
+	if vrt.ExitingWithoutLock(unsafe.Pointer(m)) {
+		return
+	}
 	m.mu.Unlock()
 	vrt.UnlockNote(unsafe.Pointer(m))
 }
@@ -47,6 +50,9 @@ func (m *RWMutex) Lock() {
 }
 
 func (m *RWMutex) Unlock() {
+	if vrt.ExitingWithoutLock(unsafe.Pointer(m)) {
+		return
+	}
 	m.mu.Unlock()
 	vrt.UnlockNote(unsafe.Pointer(m))
 }
